@@ -16,7 +16,31 @@ structure Verdict where
   relational : Bool := false -- if true the model result is not compared (property is relational)
   note : String := ""
 
-def parseInt? (s : String) : Option Int := s.toInt?
+/-- decimal digits `a[lo..hi)` → Nat by balanced splitting (sub-quadratic with GMP-backed `Nat`; the library's
+`String.toNat?` is a left fold `n*10+d`, quadratic in the number of digits — minutes on lines that carry a thousand
+integers of twenty thousand digits each). Works on the UTF-8 bytes, no per-character allocation. -/
+partial def digitsToNat (a : ByteArray) (lo hi : Nat) : Nat :=
+  if hi - lo ≤ 18 then
+    Nat.fold (hi - lo) (fun k _ n => n * 10 + ((a.get! (lo + k)).toNat - 48)) 0
+  else
+    let mid := (lo + hi) / 2
+    digitsToNat a lo mid * 10 ^ (hi - mid) + digitsToNat a mid hi
+
+def parseInt? (s : String) : Option Int :=
+  if s.utf8ByteSize ≤ 40 then s.toInt? else
+  let a := s.toUTF8
+  let neg := a.get! 0 == 45
+  let lo := if neg then 1 else 0
+  if lo ≥ a.size then none
+  else if Nat.all (a.size - lo) (fun k _ => let c := a.get! (lo + k); 48 ≤ c && c ≤ 57) then
+    let n : Int := (digitsToNat a lo a.size : Nat)
+    some (if neg then -n else n)
+  else none
+
+#guard parseInt? "-123456789012345678901234567890123456789012345678901234567890" == some (-123456789012345678901234567890123456789012345678901234567890)
+#guard parseInt? "100000000000000000000000000000000000000000000000000000000000000000000000007" == some (10^74 + 7)
+#guard parseInt? "1000000000000000000000000000000000000000000000000x0" == none
+#guard parseInt? "-" == none
 
 def natsOf (l : List Int) : List Nat := l.map Int.toNat
 
